@@ -105,7 +105,11 @@ type unmarshalTextDecoder struct {
 
 func (d *unmarshalTextDecoder) FromDom(vp unsafe.Pointer, node Node, ctx *context) error {
 	if node.IsNull() {
-		*(*unsafe.Pointer)(vp) = nil
+		/* only an interface destination is a pointer-shaped slot that `null` clears (both
+		 * words), for a value with a pointer-receiver unmarshaler vp is the value itself */
+		if d.typ.Kind() == reflect.Interface {
+			*(*rt.GoIface)(vp) = rt.GoIface{}
+		}
 		return nil
 	}
 
